@@ -361,8 +361,14 @@ fn alt_encode(r: &mut Rng, v: &PlutusData, out: &mut Vec<u8>) {
         PlutusData::Constr(c) => {
             alt_head(r, 6, c.tag, out);
             let d = matches!(c.fields, MaybeIndefArray::Def(_));
-            if c.tag == 102 { out.push(0x82); alt_head(r, 0, c.any_constructor.unwrap_or(0), out); }
+            // tag 102: [any_constructor, fields] as a definite 2-array (any head width) or an indefinite array
+            let outer_indef = c.tag == 102 && r.chance(1, 2);
+            if c.tag == 102 {
+                if outer_indef { out.push(0x9f); } else { alt_head(r, 4, 2, out); }
+                alt_head(r, 0, c.any_constructor.unwrap_or(0), out);
+            }
             arr(r, d, &c.fields.clone().to_vec(), out);
+            if outer_indef { out.push(0xff); }
         }
         PlutusData::Map(m) => {
             let xs = m.clone().to_vec();
@@ -376,9 +382,10 @@ fn alt_encode(r: &mut Rng, v: &PlutusData, out: &mut Vec<u8>) {
         PlutusData::BoundedBytes(b) => alt_bytes(r, b, out),
     }
 }
-/// tag 102 with an inner array head the Rust does not check (`d.array()?` ignores the length; for an
-/// indefinite head the break is not consumed): any head, then uint, then the fields, then junk
-fn lenient102(r: &mut Rng) -> Vec<u8> {
+/// tag 102 with inner array heads of every kind (0,1,2,3,23 items, wide heads, indefinite with or
+/// without its break right after the two items, trailing junk): only a definite 2-array or an
+/// indefinite array closed after two items is a constructor
+fn odd102(r: &mut Rng) -> Vec<u8> {
     let mut out = vec![];
     let wrap = r.below(5);
     match wrap { 1 => out.push(0x81), 2 => out.push(0x9f), 3 => out.push(0x82), 4 => out.extend([0xa1, 0x00]), _ => {} }
@@ -427,7 +434,7 @@ pub fn generate(g: &mut Gen) {
             let mut alt = vec![]; alt_encode(&mut r, x, &mut alt);
             ops.push(format!("decx {} {}", hex(&alt), show_s(&norm_any(x))));
         }
-        // malformed / truncated input, and the tag-102 leniency of the decoder
+        // malformed / truncated input, and tag-102 inputs with every kind of inner array head
         let mut enc = minicbor::to_vec(&vals[0]).unwrap();
         match r.below(4) {
             0 => { let n = r.below(enc.len() as u64 + 1) as usize; enc.truncate(n); }
@@ -436,7 +443,7 @@ pub fn generate(g: &mut Gen) {
             _ => { enc.extend(r.bytes(3)); }
         }
         ops.push(format!("dec {}", hex(&enc)));
-        if r.chance(1, 4) { ops.push(format!("dec {}", hex(&lenient102(&mut r)))); }
+        if r.chance(1, 4) { ops.push(format!("dec {}", hex(&odd102(&mut r)))); }
         g.case(ops);
     }
 }
